@@ -48,7 +48,9 @@ def main(tier):
         agg.add(r2)
     # (b) diff side
     shapes = c01.gen_shapes(b['c01']['max_lines'], b['c01']['max_hunks'], 1)
-    res_b = pmap(c01.run_shape, [(s, 1, False) for s in shapes], chunksize=8)
+    # every shape with one range per modified line, and the shapes that pair a removed with an added line
+    # once more with NO changed range (identical text: the end-of-line-only edits git produces)
+    res_b = pmap(c01.run_shape, [(s, 1, False) for s in shapes] + [(s, 0, False) for s in shapes if any('-+' in h for h in s)], chunksize=8)
     for r in res_b:
         r2 = dict(r)
         r2['violations'] = [v for v in r.get('violations', []) if v.get('role', '').startswith('panic')]
